@@ -359,9 +359,12 @@ namespace igris
             size_t oldsize = m_size;
             if (n > oldsize)
             {
+                // the size follows every constructed element: if a
+                // constructor throws, what was built so far is still owned
                 for (size_t i = oldsize; i < n; ++i)
                 {
                     igris::constructor(m_data + i);
+                    m_size = i + 1;
                 }
             }
             else
